@@ -813,6 +813,17 @@ pub fn scenario_tailsplice(ctx: &mut Ctx) -> ScResult {
     }
     let tail = gen_tail(ctx.ch, &creds, &other);
     fm.items.extend(tail);
+    if ctx.ch.rare(1, 40) {
+        // a message sized to the very end of the 16-bit length range: the tail attributes end within
+        // the last few bytes before offset 65 556 (absolute offsets above 65 535 do not fit in 16 bits)
+        let base = fm.encode().len();
+        let delta = *ctx.ch.pick(&[0usize, 4, 8, 12, 16, 20, 24, 28, 32, 36, 40, 44, 1, 2, 3]);
+        let l = 65_552usize.saturating_sub(base + 4 + delta);
+        if l > 60_000 {
+            fm.items.insert(0, RefItem::Attr { ty: 0x7f01, value: ctx.ch.bytes(l), pad: 0 });
+            ctx.st.inc("probe.message_at_16bit_length_limit");
+        }
+    }
     let x = fm.encode();
     ev!(ctx, "foreign message {}B: {:?}", x.len(), fm.items.iter().map(item_name).collect::<Vec<_>>());
     judge_exposure(ctx, &x, &lc)?;
